@@ -89,7 +89,7 @@ CONCRETE = {
 }
 
 
-def dist_case(M, system, rows, neutral_kind, zero_row, relative=True, zero_entry=False):
+def dist_case(M, system, rows, neutral_kind, zero_row, relative=True, zero_entry=False, warmup=False):
     """chromatic scaling on a concrete system; symbolic (or sampled) non-negative targets"""
     from dreye.api.estimator import ReceptorEstimator
     from dreye.api.barycentric import barycentric_dim_reduction
@@ -116,6 +116,11 @@ def dist_case(M, system, rows, neutral_kind, zero_row, relative=True, zero_entry
     if neutral_kind == "given":
         neutral = np.array([1.0, 1.2, 0.9, 1.1][:m])
     snap = np.array(B, dtype=object if M.symbolic else float, copy=True)
+    if warmup:
+        # an earlier query on the same estimator about a different neutral point must not influence this one
+        other = np.array([0.8, 1.3, 1.1, 0.9][:m])
+        stubs.qhull_reset(); hull_reset()
+        est.gamut_dist_scaling(np.array(snap, dtype=object).view(symnp.SymArray) if M.symbolic else np.array(snap, dtype=float), neutral_point=(symnp.const(other) if M.symbolic else other), relative=relative)
     stubs.qhull_reset(); hull_reset()
     out = np.asarray(est.gamut_dist_scaling(B, neutral_point=(None if neutral is None else (symnp.const(neutral) if M.symbolic else neutral)), relative=relative))
     M.observe("out", out)
@@ -176,6 +181,9 @@ def cases(tier, seed):
     for neutral_kind in ("default", "given"):
         add(f"distance scaling dichromat neutral={neutral_kind} pure-receptor target (exact zero capture)", "dist_case", system="di", rows=2, neutral_kind=neutral_kind, zero_row=False,
             zero_entry=True, opts=dict(n_validate=2, max_paths=400, timeout_ms=30000))
+    for neutral_kind in ("default", "given"):
+        add(f"distance scaling dichromat neutral={neutral_kind} after an earlier query about another neutral point", "dist_case", system="di", rows=2, neutral_kind=neutral_kind,
+            zero_row=False, warmup=True, opts=dict(n_validate=2, max_paths=600, timeout_ms=30000))
     # Chromatic (distance) scaling for tri-/tetrachromats is NOT decided: `dist_case` above runs the real hull_dist_scaling in exact algebraic arithmetic, but every comparison
     # on the way (zero rows, `alphas <= 0`, nanmin) involves sums of sqrt-constants and divisions by chromaticity sums; z3 neither folds them nor
     # honours its timeout on them (probed: minutes per comparison, see DESIGN.md).  Only the caller-array clause of that function is exercised (C14).
